@@ -4,6 +4,7 @@ import JmesVerif.Model.Encode
 import JmesVerif.Spec.GrammarCheck
 import JmesVerif.Model.Interp
 import JmesVerif.Spec.Paren
+import JmesVerif.Spec.Sem
 /-!
 Line-protocol driver for the model side of the correspondence streams (DESIGN §4.2).
 `jmdriver <stream>` reads one case per line on stdin and writes one result line per case.
@@ -100,10 +101,20 @@ def streamEval (fields : List String) : String :=
     | some doc =>
       match parseExpr (Enc.unhexStr h).toList with
       | .error e => "C " ++ compileErrStr e
-      | .ok (_, a) =>
-        match search Registry.default evalFuel a doc with
-        | .ok v => "ok " ++ Enc.valStr v
-        | .error e => evalErrStr e
+      | .ok (e, a) =>
+        let res := search Registry.default evalFuel a doc
+        -- the statement of C01_conformance evaluated on this case (core expressions only)
+        let semTag :=
+          if Sem.exprCore e then
+            match Sem.expr doc e, res with
+            | some v, .ok v' => if Enc.valStr v == Enc.valStr v' then "ok" else "DIFF:" ++ Enc.valStr v
+            | none, .error (.runtime .invalidSlice _) => "ok"
+            | some v, _ => "DIFF:" ++ Enc.valStr v
+            | none, _ => "DIFF:invalid-slice"
+          else "n/a"
+        match res with
+        | .ok v => "ok " ++ Enc.valStr v ++ "\tsem=" ++ semTag
+        | .error e => evalErrStr e ++ "\tsem=" ++ semTag
   | _ => "BADCASE"
 
 partial def loop (h : IO.FS.Stream) (out : IO.FS.Stream) (f : List String → String) : IO Unit := do
